@@ -66,6 +66,7 @@ func main() {
 	repo := flag.String("repo", "/repo", "repository root")
 	verif := flag.String("verif", "/verif", "verification root")
 	out := flag.String("out", "", "output directory (generated sources + overlay.json)")
+	flag.StringVar(&extraDir, "extra", "", "directory of an extra package to instrument and map into the module as go.amzn.com/veriflit")
 	flag.Parse()
 	if *out == "" {
 		fmt.Fprintln(os.Stderr, "vinstr: -out required")
@@ -77,6 +78,8 @@ func main() {
 	}
 }
 
+var extraDir string
+
 func run(repo, verif, out string) error {
 	cfg := &packages.Config{
 		Mode: packages.NeedName | packages.NeedFiles | packages.NeedCompiledGoFiles | packages.NeedSyntax |
@@ -85,7 +88,26 @@ func run(repo, verif, out string) error {
 		Tests: false,
 		Env:   append(os.Environ(), "GOFLAGS=-mod=mod", "GOPROXY=off", "GOSUMDB=off", "GOTOOLCHAIN=local"),
 	}
-	pkgs, err := packages.Load(cfg, "./lambda/...", "./cmd/...")
+	patterns := []string{"./lambda/...", "./cmd/..."}
+	if extraDir != "" {
+		// the extra package exists only in the overlay, as <repo>/veriflit
+		cfg.Overlay = map[string][]byte{}
+		ents, err := os.ReadDir(extraDir)
+		if err != nil {
+			return err
+		}
+		for _, e := range ents {
+			if strings.HasSuffix(e.Name(), ".go") && !strings.HasSuffix(e.Name(), "_test.go") {
+				b, err := os.ReadFile(filepath.Join(extraDir, e.Name()))
+				if err != nil {
+					return err
+				}
+				cfg.Overlay[filepath.Join(repo, "veriflit", e.Name())] = b
+			}
+		}
+		patterns = append(patterns, "./veriflit")
+	}
+	pkgs, err := packages.Load(cfg, patterns...)
 	if err != nil {
 		return err
 	}
